@@ -203,7 +203,9 @@ def normTree : Tree → String
   | .text s => "T:" ++ hexOfStr s
   | .comment s => "C:" ++ hexOfStr s
   | .elem tag attrs kids =>
-    let attrs := sortPairs (attrs.map normAttr)
+    -- an empty class / style attribute is identified with an absent one
+    let attrs := sortPairs ((attrs.map normAttr).filter fun kv =>
+      !((kv.1 == "class" || kv.1 == "style") && kv.2.isEmpty))
     "E(" ++ tag ++ ";" ++ "&".intercalate (attrs.map fun (k, v) => k ++ "=" ++ hexOfStr v) ++ ";"
       ++ normTrees kids ++ ")"
 def normTrees : List Tree → String
@@ -264,11 +266,23 @@ def freshNorm (s : St) (v : View) : Option String := do
   let ts ← serializeKids d s.root2
   pure (normTrees ts)
 
-/-! known-finding class predicates (decidable on the pair old value / new value) -/
+/-! known-finding classes: sticky flags over the values of the case (predicates of Model/View) -/
 
-def zipAny {α β : Type} (f : α → β → Bool) : List α → List β → Bool
-  | a :: as, b :: bs => f a b || zipAny f as bs
-  | _, _ => false
+def shapeFlags (v : View) : List String :=
+  (if v.anyElem dupItem then ["dup-item"] else [])
+  ++ (if v.anyElem classOverwrite then ["class-overwrite"] else [])
+  ++ (if v.anyElem styleOverwrite then ["style-overwrite"] else [])
+
+def pairFlags (a b : View) : List String :=
+  (if View.anyElemPair toggleRenamed a b then ["toggle-rename"] else [])
+  ++ (if View.anyElemPair styleRenamed a b then ["style-rename"] else [])
+
+def addFlags (s : St) (v : View) : St :=
+  let fl := shapeFlags v ++ (match s.prev with | some a => pairFlags a v | none => [])
+  { s with classes := s.classes ++ fl.filter (fun f => !s.classes.contains f), prev := some v }
+
+def classOrder : List String :=
+  ["dup-item", "class-overwrite", "style-overwrite", "toggle-rename", "style-rename"]
 
 def verdict (s : St) (v : View) : String :=
   match regionNorm s, freshNorm s v with
@@ -276,7 +290,7 @@ def verdict (s : St) (v : View) : String :=
     if a == b then
       (if s.dom.errs.isEmpty then "ok" else "fail dom-error")
     else
-      match s.classes with
+      match classOrder.filter s.classes.contains with
       | c :: _ => "fail " ++ c
       | [] => "fail not-fresh"
   | _, _ => "fail unserialisable"
@@ -304,22 +318,22 @@ def step (s : St) (line : String) : St × String :=
   | "build" :: rest =>
     match s.st, parseTy (rest.length + 1) rest with
     | none, some (ty, r) =>
-      match parseVal (r.length + 1) ty r with
+      match parseVal (rest.length + 4096) ty r with
       | some (v, []) =>
         if !(decide (HasTy v ty)) then (s, "bad-op") else
         let (d, st) := build v s.dom
         let d := mount st d s.root s.post.head?
-        emit { s with dom := d, ty := some ty, st := some st, prev := some v } (some v)
+        emit (addFlags { s with dom := d, ty := some ty, st := some st } v) (some v)
       | _ => (s, "bad-op")
     | _, _ => (s, "bad-op")
   | "rebuild" :: rest =>
     match s.st, s.ty with
     | some st, some ty =>
-      match parseVal (rest.length + 1) ty rest with
+      match parseVal (rest.length + 4096) ty rest with
       | some (v, []) =>
         if !(decide (HasTy v ty)) then (s, "bad-op") else
-        let (d, st) := rebuild v st s.dom
-        emit { s with dom := d, st := some st, prev := some v } (some v)
+        let (d, st) := rebuild false v st s.dom
+        emit (addFlags { s with dom := d, st := some st } v) (some v)
       | _ => (s, "bad-op")
     | _, _ => (s, "bad-op")
   | ["unmount"] =>
